@@ -75,3 +75,31 @@ func TestReloadChangesRepeat(t *testing.T) {
 	sub := vf.Cur().Sub("reload-changes-repeat", fmt.Sprintf(rule, "targeted: one continuously firing group, a reload that only changes repeat_interval (4h/1h -> 10m/30m/2h), 14 h of virtual time"), 10)
 	sysrun.Run(t, "C04", sub, sysrun.Family{Name: "rcr", Quick: 40, Thorough: 1500, NonTrivial: nt, Gen: reloadChangesRepeat}, checkers(0))
 }
+
+// manyGroupsOneTick: 48 groups created by one POST, hence flushing at the same virtual instants on
+// several Ps in parallel (the per-alert hashing, the log and the dedup state are shared code), two
+// integrations each, re-sent unchanged for ten group intervals.
+func manyGroupsOneTick(r *rand.Rand) *scen.Scenario {
+	gw, gi, ri := gen.Pick(r, []time.Duration{time.Second, 5 * time.Second}), gen.Pick(r, []time.Duration{15 * time.Second, 30 * time.Second}), time.Hour
+	gb := []string{"alertname"}
+	cfg := &scen.Config{ResolveTimeout: 5 * time.Minute,
+		Route:     &model.RouteSpec{Receiver: "r0", GroupBy: &gb, GroupWait: &gw, GroupInterval: &gi, RepeatInterval: &ri},
+		Receivers: []scen.Receiver{{Name: "r0", Integs: []scen.Integ{{SendResolved: true}, {SendResolved: r.Intn(2) == 0}}}}}
+	s := &scen.Scenario{Config: cfg, Duration: 10 * gi, Retention: 120 * time.Hour, MaintenanceInterval: 15 * time.Minute}
+	end := 5 * time.Minute
+	var batch []scen.PostSpec
+	for g := 0; g < 48; g++ {
+		for k := 0; k < 1+g%3; k++ {
+			batch = append(batch, scen.PostSpec{Labels: model.Labels{"alertname": fmt.Sprintf("G%02d", g), "instance": fmt.Sprint(k)}, EndOff: &end})
+		}
+	}
+	for at := 3*time.Second + 77*time.Millisecond; at < s.Duration; at += 2*gi + 333*time.Millisecond {
+		s.Ops = append(s.Ops, scen.Op{At: at, Kind: "alerts", Alerts: batch})
+	}
+	return s
+}
+
+func TestManyGroupsOneTick(t *testing.T) {
+	sub := vf.Cur().Sub("many-groups-one-tick", fmt.Sprintf(rule, "targeted: 48 groups (1-3 alerts each) created by one POST flush at the same virtual instants in parallel to two integrations, unchanged for ten group intervals"), 4)
+	sysrun.Run(t, "C04", sub, sysrun.Family{Name: "mg", Quick: 12, Thorough: 400, NonTrivial: nt, Gen: manyGroupsOneTick}, checkers(0))
+}
